@@ -152,6 +152,8 @@ func (zns *ZnPMServer) StartMaster(connUrl string, cfg ZnPMServerConfig) error {
 	//// read named pipe data to recv msg from child process
 	go zns.readNamedPipe(p)
 
+	// reserve the initial processes before any of them is spawned (refCount = registered + reserved)
+	zns.refCount = cfg.InitProcs
 	//// maintain child state (DO NOT UPDATE child data directly!)
 	go zns.maintainChildState(cfg, ln, p)
 
@@ -262,8 +264,8 @@ func (zns *ZnPMServer) maintainChildState(cfg ZnPMServerConfig, ln *net.TCPListe
 	for {
 		select {
 		case aw := <-zns.addChan:
+			// refCount already counts this child: it was reserved before the process was spawned
 			zns.childs[aw.pid] = aw
-			zns.refCount = len(zns.childs)
 			verifPM("add", aw.pid, aw.state, zns.refCount, len(zns.childs), 0)
 		case uw := <-zns.updateChan:
 			if oldState, ok := zns.childs[uw.pid]; ok {
